@@ -365,7 +365,7 @@ def runtimeJson (rt : Runtime) : Json :=
     ("exitCheckpoints", rt.exitCheckpoints), ("waitClosedBlocksOnConnections", rt.waitClosedBlocksOnConnections),
     ("stateCopiedAtServe", rt.stateCopiedAtServe), ("h2PriorFreshIdleTimer", rt.h2PriorFreshIdleTimer),
     ("endCancelRaises", rt.endCancelRaises), ("h2CancelDeadlocks", rt.h2CancelDeadlocks),
-    ("h2CancelSaysGoaway", rt.h2CancelSaysGoaway)]
+    ("h2CancelSaysGoaway", rt.h2CancelSaysGoaway), ("blockedWriteOutlivesCancel", rt.blockedWriteOutlivesCancel)]
 
 /-- the runtime constants the named witnesses of HC/Props/C14.lean and C15.lean are about -/
 def runtimesH : Handler := fun _ =>
